@@ -22,7 +22,7 @@ import ast
 
 from ..engine.model import AnalysisError, src, walk_own
 from ..engine.flow import Flow, Domain
-from ..engine.inline import Inliner, norm_text, block_env, canon_names, same_tree
+from ..engine.inline import Inliner, norm_text, block_env, canon_names, same_tree, cmp_parts
 from ..engine.typestate import EventDomain, FactDomain
 from .c05 import r050
 
@@ -232,8 +232,11 @@ def canonicalise_roles(load):
     so = one(lambda c: isinstance(c.func, ast.Attribute) and c.func.attr == 'setOrigins' and len(c.args) >= 3, 'setOrigins call')
     roles[name_of(so.args[1], 'joint poses')] = 'joint_poses'
     roles[name_of(so.args[2], 'link poses')] = 'link_poses'
-    walkers = {n.test.left.value.id for n in load.body() if isinstance(n, ast.While) and isinstance(n.test, ast.Compare) and isinstance(n.test.left, ast.Attribute)
-               and n.test.left.attr == 'num_children' and isinstance(n.test.left.value, ast.Name)}
+    walkers = set()
+    for n in load.body():
+        cp = cmp_parts(n.test, left=lambda t: t.endswith('.num_children')) if isinstance(n, ast.While) else None
+        if cp is not None and cp[1] == '>' and cp[2] == '0' and cp[0].count('.') == 1:
+            walkers.add(cp[0].split('.')[0])
     if len(walkers) != 1:
         raise AnalysisError('loadArmFromURDF: chain-walking variable not recognised')
     roles[walkers.pop()] = 'temp_element'
@@ -397,7 +400,7 @@ def check(model, rep):
     # ---------------------------------------------------------------- R13.3
     rep.rule('R13.3', 'chain walk: a moving joint makes exactly one append to names/mins/maxs, one write of column arrind in both tables, '
                       'then arrind += 1; links and fixed joints make none')
-    walks = [n for n in load.body() if isinstance(n, ast.While) and 'num_children > 0' in src(n.test)]
+    walks = [n for n in load.body() if isinstance(n, ast.While) and cmp_parts(n.test, left='temp_element.num_children') == ('temp_element.num_children', '>', '0')]
     if len(walks) != 2:
         raise AnalysisError('loadArmFromURDF: DOF count loop / chain walk not recognised (%d while loops)' % len(walks))
     count_loop, walk = walks
